@@ -241,7 +241,12 @@ def _bridge_words(f):
 def pred_bridge_first_word_after_dash(f):
     """carapace registration (A); the only `--` of the line is the last typed word"""
     ws = _bridge_words(f)
-    return f["case"][0] == b"A" and len(ws) > 0 and ws[-1] == b"--" and b"--" not in ws[:-1]
+    if f["case"][0] != b"A" or b"--" not in ws:
+        return False
+    k = ws.index(b"--")
+    # (a) the dash is the last typed word; (b) the last typed word after the dash looks like a flag: cobra takes it for
+    # the flag whose value is being completed and removes it from the arguments it hands over
+    return k == len(ws) - 1 or (len(ws[-1]) > 1 and ws[-1].startswith(b"-"))
 
 
 def pred_slot_chain_before_subcommand(f):
